@@ -93,4 +93,31 @@ pub fn distance_case(cx: &mut Ctx, n: u64, case: &Value) {
             other => cx.bad("C07", "distance_f32", case, json!({"what": "Euclidean.distance on Geometry<f32>", "got": format!("{other:?}"), "want_d2": want2})),
         }
     }
+    // rectilinear operands (every segment axis-parallel) under a monotone re-labelling of the coordinate values by decimal
+    // fractions, x -> fl(0.1 x + 0.3) on both axes: which parts touch or overlap does not change, so the distance is exactly zero
+    // in the same cases, and the spellings of the operands (Rect / Polygon / enum) still agree with each other
+    {
+        use geo::CoordsIter;
+        let rectilinear = |g: &G| -> bool {
+            use geo::LinesIter;
+            match g { G::Point(_) | G::MultiPoint(_) | G::Rect(_) => true, G::Triangle(_) | G::GeometryCollection(_) => false,
+                      G::Line(l) => l.start.x == l.end.x || l.start.y == l.end.y,
+                      G::LineString(x) => x.lines_iter().all(|l| l.start.x == l.end.x || l.start.y == l.end.y),
+                      G::MultiLineString(x) => x.lines_iter().all(|l| l.start.x == l.end.x || l.start.y == l.end.y),
+                      G::Polygon(x) => x.lines_iter().all(|l| l.start.x == l.end.x || l.start.y == l.end.y),
+                      G::MultiPolygon(x) => x.lines_iter().all(|l| l.start.x == l.end.x || l.start.y == l.end.y) }
+        };
+        if rectilinear(&a) && rectilinear(&b) && a.geometry().coords_count() <= 60 && b.geometry().coords_count() <= 60 {
+            let f = |c: geo::Coord<f64>| geo::Coord { x: c.x * 0.1 + 0.3, y: c.y * 0.1 + 0.3 };
+            let (da, db) = (a.map(&f, true), b.map(&f, true));
+            let mut got: Vec<(String, Result<f64, String>)> = vec![("distance(a', b')".into(), dist_cc(&da, &db)), ("distance(b', a')".into(), dist_cc(&db, &da)),
+                                                                  ("distance(Geometry a', Geometry b')".into(), dist_gg(&da, &db))];
+            for (name, va) in da.variants() { if name == "asPoly" || name == "rectSwapped" || name == "mpoly1" { got.push((format!("variant {name} of a'"), dist_cc(&va, &db))); } }
+            for (name, vb) in db.variants() { if name == "asPoly" || name == "rectSwapped" || name == "mpoly1" { got.push((format!("variant {name} of b'"), dist_cc(&da, &vb))); } }
+            let first = got[0].1.clone().unwrap_or(f64::NAN);
+            let ok = got.iter().all(|(_, r)| match r { Ok(d) => if num == 0.0 { *d == 0.0 } else { *d > 0.0 && (*d - first).abs() <= 1e-12 * first }, Err(_) => false });
+            cx.count("distance_relabelled_cases", 1);
+            if ok { cx.ok("distance_decimal_relabelling"); } else { cx.bad("C07", "distance_decimal_relabelling", case, json!({"what": "operands re-labelled by x -> 0.1 x + 0.3", "want_zero": num == 0.0, "got": got.iter().map(|(n, r)| format!("{n}: {r:?}")).collect::<Vec<_>>()})); }
+        }
+    }
 }
